@@ -11,20 +11,23 @@ import (
 // Kind-specific glue: everything the (generated) CacheOf harnesses need to be
 // textually identical to the Cache harnesses.
 
+// The caches are built by the real constructor (no janitor) and configured
+// through the public setters, so the harnesses do not depend on how the
+// settings are represented; only the map behind `items` is swapped for a small
+// real table (or the seam).
 func vxNewCache(tableLen int, defExp time.Duration, ec EvictedCallback) *xsyncMap {
-	c := &xsyncMap{items: xsync.VxNewMap(tableLen, tableLen), stop: make(chan struct{})}
-	c.defaultExpiration.Store(defExp)
-	c.evictedCallback.Store(ec)
+	c := newXsyncMap(Config{CleanupInterval: 0}).(*xsyncMapWrapper).xsyncMap
+	c.items = xsync.VxNewMap(tableLen, tableLen)
+	c.SetDefaultExpiration(defExp)
+	c.SetEvictedCallback(ec)
 	return c
 }
 
 func vxNewCacheOf(tableLen int, defExp time.Duration, ec EvictedCallbackOf[string, interface{}]) *xsyncMapOf[string, interface{}] {
-	c := &xsyncMapOf[string, interface{}]{
-		items: xsync.VxNewMapOf[string, itemOf[interface{}]](tableLen, tableLen, xsync.VxStrHasher),
-		stop:  make(chan struct{}),
-	}
-	c.defaultExpiration.Store(defExp)
-	c.evictedCallback.Store(ec)
+	c := newXsyncMapOf[string, interface{}](ConfigOf[string, interface{}]{CleanupInterval: 0}).(*xsyncMapOfWrapper[string, interface{}]).xsyncMapOf
+	c.items = xsync.VxNewMapOf[string, itemOf[interface{}]](tableLen, tableLen, xsync.VxStrHasher)
+	c.SetDefaultExpiration(defExp)
+	c.SetEvictedCallback(ec)
 	return c
 }
 
